@@ -32,6 +32,13 @@ def build(m):
     m.add(Contract(MOD + ':TocRenderer.parse_rendered_heading', [('rendered', STR)], returns=STR, trusted=True, pure=True,
                    ensures=['result == plain_text(rendered)'], is_static=True,
                    note="re.sub(r'<.+?>', '', rendered): the plain text of a rendered heading (A5)"))
+    # other ways of getting at a heading's text are different functions of the token: a change that swaps
+    # them in fails the collection postcondition instead of leaving the method outside the subset
+    m.ufunc('to_plain', [HT], STR)
+    m.methods[('HtmlRenderer', 'render_to_plain')] = 'mistletoe.html_renderer:HtmlRenderer.render_to_plain#toc'
+    m.add(Contract('mistletoe.html_renderer:HtmlRenderer.render_to_plain#toc', [('self', TRef('HtmlRenderer')), ('token', HT)],
+                   returns=STR, trusted=True, pure=True, ensures=['result == to_plain(token)'],
+                   note='render_to_plain(token) as an uninterpreted function of the token (not the tag-stripped rendering)'))
     CONTENT = 'plain_text(html_render_heading(token))'
     Q = ('(not (self.omit_title and token.level == 1) and token.level <= self.depth and '
          'not exists(lambda i: pred_holds(self.filter_conds[i], %s), 0, len(self.filter_conds)))' % CONTENT)
